@@ -362,8 +362,66 @@ def locate(src, path, with_attrs=False):
 # --------------------------------------------------------------------------------------------
 # rewrites
 # --------------------------------------------------------------------------------------------
+def _rewrite_m1(text, rw):
+    """M1 token macros.  `quote!( .. #a .. #b .. )` -> `<fn>((&a, &b))`;
+    `format_ident!("fmt", e1, e2)` -> `<fn>((e1, e2))`.  The macro call becomes one call of an opaque
+    total function over the expressions it interpolates; those expressions stay and are checked."""
+    name, fn, mode = rw["macro"], rw["fn"], rw.get("mode", "quote")
+    toks = lex(text)
+    out, cur, n = [], 0, 0
+    i = 0
+    while i < len(toks) - 2:
+        if toks[i].kind == "ident" and toks[i].text == name and toks[i + 1].text == "!" and toks[i + 2].text in _OPEN:
+            close = match_close(toks, i + 2)
+            inner = toks[i + 3:close]
+            if mode == "quote":
+                args = []
+                for j, t in enumerate(inner):
+                    if t.text == "#" and j + 1 < len(inner) and inner[j + 1].kind == "ident":
+                        if inner[j + 1].text not in args:
+                            args.append(inner[j + 1].text)
+                    if t.text == "#" and j + 1 < len(inner) and inner[j + 1].text == "(":
+                        raise VxError("M1: repetition #(..)* in %s! is not handled" % name)
+                rep = "%s((%s))" % (fn, "".join("&%s, " % a for a in args))
+            else:
+                # drop the first argument (the format string literal), keep the rest verbatim
+                d = 0
+                first_comma = None
+                for j, t in enumerate(inner):
+                    if t.kind == "punct" and t.text in _OPEN:
+                        d += 1
+                    elif t.kind == "punct" and t.text in _CLOSE:
+                        d -= 1
+                    elif t.text == "," and d == 0:
+                        first_comma = j
+                        break
+                if first_comma is None or first_comma + 1 >= len(inner):
+                    rest = ""
+                else:
+                    rest = text[inner[first_comma + 1].start:inner[-1].end]
+                rep = "%s((%s,))" % (fn, rest) if rest else "%s(())" % fn
+            out.append(text[cur:toks[i].start])
+            out.append(rep)
+            cur = toks[close].end
+            n += 1
+            i = close + 1
+            continue
+        i += 1
+    out.append(text[cur:])
+    return "".join(out), n
+
+
 def apply_rewrites(text, rewrites, log):
     for rw in rewrites or []:
+        if rw.get("macro"):
+            new, n = _rewrite_m1(text, rw)
+            if n != rw.get("count", 1):
+                raise VxError("lost anchor: rewrite %s macro %s! matched %d times, expected %d"
+                              % (rw.get("id", "M1"), rw["macro"], n, rw.get("count", 1)))
+            log.append({"id": rw.get("id", "M1"), "pattern": rw["macro"] + "!(..)", "replace": rw["fn"] + "((..))",
+                        "count": n, "why": rw.get("why", "")})
+            text = new
+            continue
         pat = rw["pattern"]
         rep = rw.get("replace", "")
         want = rw.get("count", 1)
